@@ -361,8 +361,10 @@ func budget(p *Prop, tier string) time.Duration {
 		}
 	}
 	q, t := p.BudgetQuick, p.BudgetThorough
-	if q == 0 {
-		q = 60
+	if q < 150 {
+		// the quick levels are finite and take 5-60 s on an idle 16-core machine; the
+		// budget only matters on a loaded one, where cutting a level would weaken the check
+		q = 150
 	}
 	if t == 0 {
 		t = 900
